@@ -56,7 +56,9 @@ class Update(Machine):
             "fault_kinds": s.subset(["crash", "enospc", "eio_read", "short_read", "short_write", "open_fail", "stat_fail"], 0.6),
             "rerun_after_crash": s.chance(0.8),
         }
-        files = [[f"env{j}.suit", s.choice(SIZES if tier == "thorough" else SIZES[:11])] for j in range(s.randint(2, 5))]
+        files = [[self.odd_stem(s, f"env{j}", dirs=True) + ".suit", s.choice(SIZES if tier == "thorough" else SIZES[:11])]
+                 for j in range(s.randint(2, 5))]
+        outs = [self.odd_stem(s, "o1"), self.odd_stem(s, "o2")]
         ops = [{"kind": "setup", "i": 0, "files": files}]
         n = s.randint(4, 12) if tier == "quick" else s.randint(6, 30)
         for _ in range(n):
@@ -71,7 +73,7 @@ class Update(Machine):
                 part = s.choice(PART_ADDRS) if s.chance(0.8) else s.below(1 << 32)
                 ops.append({"kind": "update", "i": i, "file": f[0], "info": s.choice(INFO_ADDRS) if s.chance(0.8) else s.below((1 << 32) - 256),
                             "part": part, "caches": s.choice([0, 1, 6, 6, 16, s.below(17)]),
-                            "defaults": s.chance(0.15), "out": s.choice(["o1", "o1", "o2", f"o{i}"]),
+                            "defaults": s.chance(0.15), "out": s.choice([outs[0], outs[0], outs[1], self.odd_stem(s, f"o{i}")]),
                             "entry": s.choice(["cli", "cli", "lib"]), "dirty": s.choice(self.DIRTY_VARIANTS)})
         return {"seed": seed, "swarm": swarm, "ops": ops, "faults": []}
 
